@@ -256,7 +256,7 @@ class Ownership:
         m = _meta(v)
         if isinstance(v, SNew) and "copy_of" not in m:
             return True, True
-        if isinstance(v, SObj) and v.origin == "new":
+        if (isinstance(v, SObj) and v.origin == "new") or isinstance(v, SNew):
             mode = m.get("copy_mode")
             if mode in ("fieldwise", "deep", "userlist", "dict", "list"):
                 fields = True
